@@ -290,7 +290,6 @@ fn why_label(why: Why) -> &'static str {
         "leftover_worktop" => "fail:leftover_worktop",
         "orphan" => "fail:leftover_bucket",
         "deposit" => "fail:deposit",
-        "trap" => "fail:zone_composition_trap",
         "fee_touched" => "fail:fee_lock_on_touched_vault",
         _ => "fail:other",
     }
